@@ -64,15 +64,18 @@ structure AccountView where
 
 /-- Metadata of an account as a read at `pit` sees it: the history when the feature is on and a
     point in time is given, the current metadata otherwise. -/
-def accountMetaRead (feat : Features) (l : Ledger) (a : String) (pit : Option Int) : Metadata :=
+def accountMetaReadV (dv : DeleteVariant) (feat : Features) (l : Ledger) (a : String) (pit : Option Int) : Metadata :=
   match pit with
   | some t =>
     if feat.acctMetaHist then
-      match acctRowOf l a with
+      match acctRowOfV dv l a with
       | some r => revisionAt r.revisions t
       | none => []
     else metaAt l (.account a) none
   | none => metaAt l (.account a) none
+
+def accountMetaRead (feat : Features) (l : Ledger) (a : String) (pit : Option Int) : Metadata :=
+  accountMetaReadV .current feat l a pit
 
 /-- `accountsResourceHandler.Expand`, checks only (the expansions are requested in sorted order:
     `effectiveVolumes` before `volumes`). -/
